@@ -291,7 +291,9 @@ fn render_case(case: &Case) -> String {
 /// Cases run on a worker thread; a case that does not finish within the time limit (the crate loops
 /// forever) is reported as `HANG` and the process exits with status 3 (the caller resumes after it).
 fn main() {
-    std::panic::set_hook(Box::new(|_| {}));
+    if std::env::var("PDS_PANIC_VERBOSE").is_err() {
+        std::panic::set_hook(Box::new(|_| {}));
+    }
     let args: Vec<String> = std::env::args().collect();
     let cases = read_cases(&args[1]);
     let limit: u64 = std::env::var("PDS_CASE_TIMEOUT_MS").ok().and_then(|s| s.parse().ok()).unwrap_or(30000);
@@ -313,6 +315,12 @@ fn main() {
     for (id, st) in ids {
         match rx.recv_timeout(std::time::Duration::from_millis(limit)) {
             Ok(text) => out.write_all(text.as_bytes()).unwrap(),
+            Err(std::sync::mpsc::RecvTimeoutError::Disconnected) => {
+                // the worker died outside the guarded crate call (a panic while observing): not a hang
+                writeln!(out, "CASE {} {} \nDIED\nEND", id, st).unwrap();
+                out.flush().unwrap();
+                std::process::exit(3);
+            }
             Err(_) => {
                 writeln!(out, "CASE {} {} \nHANG\nEND", id, st).unwrap();
                 out.flush().unwrap();
